@@ -545,52 +545,102 @@ func c03Unstable(c *Check) {
 	off := FieldOf(u, offF)
 	end := &Sym{K: KBin, Name: "+", Args: []*Sym{off, {K: KBuiltin, Name: "len", Args: []*Sym{FieldOf(u, entF)}}}}
 	nArms := 0
-	for _, st := range p.StoresTo(entF) {
-		if st.Fn != taa || st.Whole {
+	// the arms may live in truncateAndAppend itself or in helpers it calls on the same receiver;
+	// a helper's stores are read through the parameter binding of its call site
+	type armSite struct {
+		fn   *ssa.Function
+		gfi  *FuncInfo
+		m    map[ssa.Value]*Sym
+		call ssa.Instruction
+	}
+	sites := []armSite{{taa, fi, nil, nil}}
+	for _, in := range p.liveInstrsOf(taa) {
+		ci, ok := in.(ssa.CallInstruction)
+		if !ok {
 			continue
 		}
-		nArms++
-		v := fi.Sym(st.Val)
-		f := fi.FactsAt(st.Instr)
-		site := p.site(st.Instr)
-		switch {
-		case v.K == KBuiltin && v.Name == "append" && v.Args[0].K == KField && v.Args[0].Fld == entF:
-			// plain append: only exactly at the end
-			c.Result(f.ImpliesCmp(from, "==", end), "C03.U", "append arm", fnName(taa), site, "entries = append(entries, ents...) only when fromIndex == offset+len(entries)", strings.Join(f.Describe(), "; "))
-			c.Result(v.Args[1].Key() == ents.Key(), "C03.U", "append arm value", fnName(taa), site, "the new entries are appended", v.Key())
-		case v.Key() == ents.Key():
-			// replace: fromIndex <= offset; offset and offsetInProgress move to fromIndex
-			okG := f.ImpliesCmp(from, "<=", off)
-			okOff, okOip := false, false
-			for _, s2 := range p.StoresTo(offF) {
-				if s2.Fn == taa && s2.Instr.Block() == st.Instr.Block() && fi.Sym(s2.Val).Key() == from.Key() {
-					okOff = true
-				}
+		callee := ci.Common().StaticCallee()
+		if callee == nil || callee == taa || callee == uslice || callee.Blocks == nil || callee.Signature.Recv() == nil {
+			continue
+		}
+		args := callArgs(ci)
+		if len(args) != len(callee.Params) || len(args) == 0 || fi.Sym(args[0]).Key() != u.Key() {
+			continue
+		}
+		writes := false
+		for _, st := range p.StoresTo(entF) {
+			if st.Fn == callee {
+				writes = true
 			}
-			for _, s2 := range p.StoresTo(oipF) {
-				if s2.Fn == taa && s2.Instr.Block() == st.Instr.Block() {
-					v2 := fi.Sym(s2.Val)
-					okOip = v2.Key() == from.Key() || v2.Key() == off.Key()
-				}
+		}
+		if !writes {
+			continue
+		}
+		m := map[ssa.Value]*Sym{}
+		for i, prm := range callee.Params {
+			m[prm] = fi.Sym(args[i])
+		}
+		sites = append(sites, armSite{callee, p.Info(callee), m, in})
+	}
+	for _, as := range sites {
+		as := as
+		val := func(v ssa.Value) *Sym {
+			sy := as.gfi.Sym(v)
+			if as.m != nil {
+				sy = resimplify(Subst(sy, as.m))
 			}
-			c.Result(okG && okOff && okOip, "C03.U", "replace arm", fnName(taa), site, "fromIndex <= offset: entries = ents, offset = fromIndex, offsetInProgress = offset", fmt.Sprintf("guard=%v offset=%v inprogress=%v", okG, okOff, okOip))
-		case v.K == KBuiltin && v.Name == "append" && v.Args[0].K == KCall && v.Args[0].Fn == uslice:
-			keep := v.Args[0]
-			okKeep := keep.Args[1].Key() == off.Key() && keep.Args[2].Key() == from.Key() && v.Args[1].Key() == ents.Key()
-			okG := f.ImpliesCmp(from, ">", off)
-			okOip := false
-			for _, s2 := range p.StoresTo(oipF) {
-				if s2.Fn == taa && s2.Instr.Block() == st.Instr.Block() {
-					v2 := fi.Sym(s2.Val)
-					if v2.K == KBuiltin && v2.Name == "min" && len(v2.Args) == 2 {
-						k0, k1 := v2.Args[0].Key(), v2.Args[1].Key()
-						okOip = (k0 == from.Key() && k1 == FieldOf(u, oipF).Key()) || (k1 == from.Key() && k0 == FieldOf(u, oipF).Key())
+			return sy
+		}
+		for _, st := range p.StoresTo(entF) {
+			if st.Fn != as.fn || st.Whole {
+				continue
+			}
+			nArms++
+			v := val(st.Val)
+			f := fi.FactsAt(st.Instr)
+			if as.call != nil {
+				f = fi.FactsAt(as.call)
+			}
+			site := p.site(st.Instr)
+			switch {
+			case v.K == KBuiltin && v.Name == "append" && v.Args[0].K == KField && v.Args[0].Fld == entF:
+				// plain append: only exactly at the end
+				c.Result(f.ImpliesCmp(from, "==", end), "C03.U", "append arm", fnName(as.fn), site, "entries = append(entries, ents...) only when fromIndex == offset+len(entries)", strings.Join(f.Describe(), "; "))
+				c.Result(v.Args[1].Key() == ents.Key(), "C03.U", "append arm value", fnName(as.fn), site, "the new entries are appended", v.Key())
+			case v.Key() == ents.Key():
+				// replace: fromIndex <= offset; offset and offsetInProgress move to fromIndex
+				okG := f.ImpliesCmp(from, "<=", off)
+				okOff, okOip := false, false
+				for _, s2 := range p.StoresTo(offF) {
+					if s2.Fn == as.fn && s2.Instr.Block() == st.Instr.Block() && val(s2.Val).Key() == from.Key() {
+						okOff = true
 					}
 				}
+				for _, s2 := range p.StoresTo(oipF) {
+					if s2.Fn == as.fn && s2.Instr.Block() == st.Instr.Block() {
+						v2 := val(s2.Val)
+						okOip = v2.Key() == from.Key() || v2.Key() == off.Key()
+					}
+				}
+				c.Result(okG && okOff && okOip, "C03.U", "replace arm", fnName(as.fn), site, "fromIndex <= offset: entries = ents, offset = fromIndex, offsetInProgress = offset", fmt.Sprintf("guard=%v offset=%v inprogress=%v", okG, okOff, okOip))
+			case v.K == KBuiltin && v.Name == "append" && v.Args[0].K == KCall && v.Args[0].Fn == uslice:
+				keep := v.Args[0]
+				okKeep := keep.Args[1].Key() == off.Key() && keep.Args[2].Key() == from.Key() && v.Args[1].Key() == ents.Key()
+				okG := f.ImpliesCmp(from, ">", off)
+				okOip := false
+				for _, s2 := range p.StoresTo(oipF) {
+					if s2.Fn == as.fn && s2.Instr.Block() == st.Instr.Block() {
+						v2 := val(s2.Val)
+						if v2.K == KBuiltin && v2.Name == "min" && len(v2.Args) == 2 {
+							k0, k1 := v2.Args[0].Key(), v2.Args[1].Key()
+							okOip = (k0 == from.Key() && k1 == FieldOf(u, oipF).Key()) || (k1 == from.Key() && k0 == FieldOf(u, oipF).Key())
+						}
+					}
+				}
+				c.Result(okKeep && okG && okOip, "C03.U", "truncate arm", fnName(as.fn), site, "fromIndex > offset: entries = append(slice(offset, fromIndex), ents...), offsetInProgress = min(offsetInProgress, fromIndex)", fmt.Sprintf("keep=%v guard=%v inprogress=%v", okKeep, okG, okOip))
+			default:
+				c.Bad("C03.U", "truncateAndAppend arm", fnName(as.fn), site, "one of append / replace / truncate", sanitizeKey(v.Key()))
 			}
-			c.Result(okKeep && okG && okOip, "C03.U", "truncate arm", fnName(taa), site, "fromIndex > offset: entries = append(slice(offset, fromIndex), ents...), offsetInProgress = min(offsetInProgress, fromIndex)", fmt.Sprintf("keep=%v guard=%v inprogress=%v", okKeep, okG, okOip))
-		default:
-			c.Bad("C03.U", "truncateAndAppend arm", fnName(taa), site, "one of append / replace / truncate", sanitizeKey(v.Key()))
 		}
 	}
 	c.Result(nArms == 3, "C03.U", "truncateAndAppend has three arms", fnName(taa), p.Pos(taa.Pos()), "append, replace, truncate", fmt.Sprint(nArms))
